@@ -60,6 +60,15 @@ int main(void)
             stream[total++] = nd_u8();
     }
     sec_start[NSEC] = total;
+#ifdef FF_AT    /* a body octet that is concretely 0xff (the stuffing value) -- placed by the driver at a cut position */
+    {
+        bool body = false;
+        for (int s = 0; s < NSEC; s++)
+            body = body || (FF_AT >= sec_start[s] + 3 && FF_AT < sec_start[s + 1]);
+        VASSERT(body, "harness: FF_AT addresses a body octet");
+        stream[FF_AT] = 0xff;
+    }
+#endif
     VASSERT(cuts[NPAY] == total && cuts[0] == 0, "harness: cuts cover the stream");
 
     struct upipe_mgr *mgr = upipe_ts_psim_mgr_alloc();
